@@ -213,7 +213,9 @@ class Run:
             if rig.connected:  # not selected: the protocol layer answers Reject.req, the handler sees nothing
                 body = s1f14_body(c) if (s, f) == (1, 14) else b""
                 rig.feed(rig.data_message(s, f, bool(w), real, body))
-        # ---- observe
+        # ---- observe, once nothing is in flight any more
+        if not self.dead:
+            rig.quiesce()
         outs = []
         for e in rig.frames(rig.log[mark:]):
             if e[0] == "frame":
@@ -339,7 +341,7 @@ def _oracle(steps):
         # clause 3: loss of the link / disabling leaves the established state
         if (lt == DIS or (lt == LOST and st["conn_before"])) and after == "COMMUNICATING":
             bad.append(("established-after-loss", f"still COMMUNICATING after {lt[0]}"
-                        + (f" ({gemrig.WAIT} s after the connection reported the loss; the handler is blocked in {st['info']['wedged']})"
+                        + (f" (still so when the bounded wait ran out after the connection reported the loss; the handler is blocked in {st['info']['wedged']})"
                            if "wedged" in st["info"] else ""), i))
         elif "wedged" in st["info"]:
             bad.append(("wedged", f"the handler blocks for ever in {st['info']['wedged']}", i))
@@ -432,15 +434,16 @@ def run_history(role, commack_req, letters):
                 waiter = None
                 if r.rig.comm() != "COMMUNICATING" and script[k][0] == "rx" and (script[k][1], script[k][2]) in ((1, 13), (1, 14)):
                     box = []
-                    waiter = threading.Thread(target=lambda: box.append(r.rig.h.waitfor_communicating(0.25)), daemon=True)
+                    waiter = threading.Thread(target=lambda: box.append(r.rig.h.waitfor_communicating(0.1)), daemon=True)
+                    n0 = len(getattr(r.rig.h, "_wait_event_list", ()))
                     waiter.start()
-                    time.sleep(0.01)
+                    Rig.wait(lambda: len(getattr(r.rig.h, "_wait_event_list", (0,))) > n0 or not waiter.is_alive(), "waiter registered")
                 b.apply(script[k])
                 k += 1
                 if waiter is not None:
-                    waiter.join(gemrig.WAIT)
+                    waiter.join(gemrig.deadline())
                     if box and box[0] and r.rig.comm() != "COMMUNICATING":
-                        r.steps[-1]["info"]["isolation"] = (f"waitfor_communicating(0.25) of this handler ({r.rig.comm()}) returned True when the "
+                        r.steps[-1]["info"]["isolation"] = (f"waitfor_communicating(0.1) of this handler ({r.rig.comm()}) returned True when the "
                                                             f"other handler did {letter_name(script[k - 1])} and is {b.rig.comm()}")
                 after = observables(r)
                 if after != before and "isolation" not in r.steps[-1]["info"]:
@@ -503,21 +506,22 @@ def gen_histories(rng, tier, search):
     for role in ("equipment", "host"):
         for bi, base in enumerate(BASES):
             # the wide alphabet (key S1F14 variants spelled out), all words of length <= 2
-            for k in ((1, 2) if big or role == "equipment" or bi in (2, 3, 4, 5) else (1,)):
+            # (quick: the two-letter words from the prefixes that differ most; the other role mirrors them in thorough)
+            for k in ((1, 2) if big or (role == "equipment" and bi in (2, 3, 4, 5, 7)) or (role == "host" and bi in (2, 4)) else (1,)):
                 for idx in product(len(wide), k):
                     out.append((role, 0, base + [wide[i] for i in idx], "exh-wide"))
             # the 9-letter alphabet, all words of length `depth` (variant of the two parameterised letters drawn per occurrence)
-            if not big and (bi in (0, 1, 5, 6, 8) or (role == "host" and bi in (3, 7))):
+            if not big and (bi in (0, 1, 5, 6, 8) or (role == "host" and bi in (3, 4, 7)) or (role == "equipment" and bi == 3)):
                 continue  # quick: the long words start from the prefixes that differ most (all of them in thorough)
             for idx in product(len(CLASSES), depth):
                 out.append((role, 0, base + [variants(rng, CLASSES[i]) for i in idx], f"exh-{depth}"))
     # connected but not selected: all words of length <= 2 over the wide alphabet + `con`, and of length 3 over the 10 letters
     for role in ("equipment", "host"):
         for bi, base in enumerate(CON_BASES):
-            for k in (1, 2):
+            for k in ((1, 2) if big or (role == "equipment" and bi in (0, 1, 2)) or (role == "host" and bi in (1, 3)) else (1,)):
                 for idx in product(len(wide) + 1, k):
                     out.append((role, 0, base + [(wide + [CON])[i] for i in idx], "exh-con"))
-            if big or (role == "equipment" and bi in (1, 2)):
+            if big or (role == "equipment" and bi == 2):
                 for idx in product(len(CLASSES_CON), 3):
                     out.append((role, 0, base + [variants(rng, CLASSES_CON[i]) for i in idx], "exh-con-3"))
     # fault: the socket refuses a write shortly before the connection reports the loss (judged by the oracle only: the
@@ -572,8 +576,8 @@ def gen_histories(rng, tier, search):
     weights = [CON] * 3 + [S1F17] + [ENSEL] + [EN] * 2 + [DIS] + [SEL] * 3 + [LOST] * 2 + [T3] * 3 + [DLY] * 3 + [RX13] * 2 + ["rx14"] * 5 + ["other"] * 3 + [CFG] * 2 + [RX13Z]
     # the configured delay changes, then an attempt fails; an S1F13 with system bytes 0: all words of length <= 2 from three prefixes
     for role in ("equipment", "host"):
-        for base in ([EN, SEL], [CFG, EN, SEL, T3, DLY], [EN, SEL, rx14("match", 0), CFG, LOST]):
-            for k in (1, 2):
+        for nb, base in enumerate(([EN, SEL], [CFG, EN, SEL, T3, DLY], [EN, SEL, rx14("match", 0), CFG, LOST])):
+            for k in ((1, 2) if big or role == "equipment" or nb == 0 else (1,)):
                 for idx in product(len(wide_cfg), k):
                     w = [wide_cfg[i] for i in idx]
                     if CFG in w or RX13Z in w or CFG in base:
@@ -625,6 +629,7 @@ class LineConn(secsgem.common.Connection):
     def __init__(self, settings):
         super().__init__(settings)
         self.blocks, self.pending, self.mute = [], [], False
+        self.n_enq = self.n_eot = 0
 
     def enable(self):
         pass
@@ -635,9 +640,11 @@ class LineConn(secsgem.common.Connection):
     def send_data(self, data):
         data = bytes(data)
         if data == bytes([self.ENQ]):
+            self.n_enq += 1
             if not self.mute:
                 self.on_data({"source": self, "data": bytes([self.EOT])})
         elif data == bytes([self.EOT]):
+            self.n_eot += 1
             if self.pending:
                 self.on_data({"source": self, "data": self.pending.pop(0)})
         elif len(data) > 1:
@@ -660,7 +667,8 @@ def secsi_loss_cases(res):
             self.conn = LineConn(self)
             return self.conn
 
-    def wait(cond, what, bound=gemrig.WAIT):
+    def wait(cond, what, bound=None):
+        bound = gemrig.deadline() if bound is None else bound
         end = time.monotonic() + bound
         while not cond():
             if time.monotonic() > end:
@@ -700,12 +708,14 @@ def secsi_loss_cases(res):
                 res.count(("secsi", role, where), sample=case if len(res.samples) < 12 else None)
                 res.bump("history_kind", "secsi-loss")
                 if where == "peer-enq-answered-block-missing":
+                    n0 = c.n_eot
                     c.on_data({"source": c, "data": bytes([LineConn.ENQ])})  # handler answers EOT and waits for the length byte
-                    time.sleep(0.05)
+                    wait(lambda: c.n_eot > n0, "EOT to the peer's ENQ")
                 elif where == "own-enq-unanswered":
                     c.mute = True
+                    n0 = c.n_enq
                     bg(lambda: h.send_stream_function(secsgem.secs.functions.SecsS01F01()))
-                    time.sleep(0.05)
+                    wait(lambda: c.n_enq > n0, "own ENQ")
                 elif where == "own-block-unacknowledged":
                     n0 = len(c.blocks)
                     orig = c.send_data
@@ -716,11 +726,14 @@ def secsi_loss_cases(res):
                         return orig(data)
                     c.send_data = half
                     bg(lambda: h.send_stream_function(secsgem.secs.functions.SecsS01F01()))
-                    wait(lambda: len(c.blocks) > n0, "own block", 1.0)
+                    wait(lambda: len(c.blocks) > n0, "own block")
                 bg(lambda: (c.on_disconnecting({"source": c}), c.on_disconnected({"source": c})))
-                left = wait(lambda: h.communication_state.current.name != "COMMUNICATING", "leave COMMUNICATING", 2.0)
+                bound = gemrig.deadline()
+                left = wait(lambda: h.communication_state.current.name != "COMMUNICATING", "leave COMMUNICATING", bound)
+                if not left:
+                    gemrig.STALLS[0] += 1
                 if not left or h.waitfor_communicating(0):
-                    res.violate("established-after-loss", f"GEM over SECS-I, link lost ({where}): still COMMUNICATING 2 s after the connection "
+                    res.violate("established-after-loss", f"GEM over SECS-I, link lost ({where}): still COMMUNICATING {bound:g} s after the connection "
                                 "reported the loss (the `disconnected` event has not reached the handler)", case)
             finally:
                 # release whatever still waits for line bytes
@@ -873,7 +886,7 @@ def main():
             continue
         if "stuck" in rec:
             stuck += 1
-            res.violate("wedged", f"the handler blocks for ever (bounded wait of {gemrig.WAIT} s ran out in {rec['stuck']})", case_of(role, ck, letters))
+            res.violate("wedged", f"the handler blocks for ever (bounded wait of {gemrig.WAIT_FIRST} s, {gemrig.WAIT_LATER} s after the first stall, ran out in {rec['stuck']})", case_of(role, ck, letters))
             continue
         res.count((role, ck, tuple(letters)), nontrivial=rec["nontrivial"],
                   sample=case_of(role, ck, letters) if kind in ("random", "exh-deny") or len(res.samples) < 3 else None)
